@@ -4,12 +4,24 @@ PROP = {
   "saml2_tophat.s_utils:decode_base64_and_inflate",
   "saml2_tophat.pack:http_form_post_message",
   "saml2_tophat.pack:http_redirect_message[SAMLRequest]",
-  "saml2_tophat.pack:http_redirect_message[SAMLResponse]"
+  "saml2_tophat.pack:http_redirect_message[SAMLResponse]",
+  "saml2_tophat.entity:Entity.unravel[response]",
+  "saml2_tophat.entity:Entity.unravel[request]",
+  "saml2_tophat.entity:Entity.apply_binding[post,SAMLRequest]",
+  "saml2_tophat.entity:Entity.apply_binding[post,SAMLResponse]",
+  "saml2_tophat.entity:Entity.apply_binding[redirect,SAMLRequest]",
+  "saml2_tophat.entity:Entity.apply_binding[redirect,SAMLResponse]",
+  "saml2_tophat.pack:http_post_message[SAMLRequest]",
+  "saml2_tophat.pack:http_post_message[SAMLResponse]"
  ],
  "lemmas": [
   [
    "redirect-decode-inverts-encode",
    "forall(lambda s: inflate(unb64(b64(substr(zcompress(utf8(s)), 2, len(zcompress(utf8(s))) - 6)))) == utf8(s), 'Str')"
+  ],
+  [
+   "post-decode-inverts-encode",
+   "forall(lambda s: unb64(b64(utf8(s))) == utf8(s), 'Str')"
   ]
  ],
  "bounded": [
@@ -17,7 +29,7 @@ PROP = {
   "form_post"
  ],
  "level": "other",
- "explanation": "Deductive part: the HTTP-Redirect encoder (Location = destination + glue + one urlencoded k=v pair per parameter, message = base64 of the raw-deflate stream), the redirect decoder, the lemma decode(encode(s)) == utf8(s) over the E-ZLIB / E-B64 axioms, and the HTTP-POST form (message and RelayState each appear as one value=\"html-escaped\" attribute). The SOAP packer is string surgery over ElementTree output, outside the subset: BOUNDED native round trip, labelled bounded. http_post_message / artifact / PAOS are not instantiated.",
+ "explanation": "Deductive part: the HTTP-Redirect encoder (Location = destination + glue + one urlencoded k=v pair per parameter, message = base64 of the raw-deflate stream), the redirect decoder, the lemma decode(encode(s)) == utf8(s) over the E-ZLIB / E-B64 axioms, and the HTTP-POST form (message and RelayState each appear as one value=\"html-escaped\" attribute). Entity.apply_binding (HTTP-POST and HTTP-Redirect, request and response) carries the encoder clauses to the entry point the anchors name, Entity.unravel applies for each binding the decoder that inverts that binding's encoder (Redirect: inflate of base64; POST / Artifact: base64; URI / none: identity; anything else is refused), and http_post_message (the form-less POST body) is one urlencoded pair per parameter; with the two lemmas decode(encode(s)) == utf8(s) this is the byte-identical round trip for Redirect and POST. The SOAP packer is string surgery over ElementTree output, outside the subset: BOUNDED native round trip, labelled bounded. http_post_message / artifact / PAOS are not instantiated.",
  "assumptions": [
   "E-URL",
   "E-HTML",
@@ -27,7 +39,7 @@ PROP = {
  "not_decided": [
   "parse_qs inverts urlencode (E-URL, assumed)",
   "a conforming HTML tokenizer recovers exactly the escaped value (E-HTML, assumed)",
-  "http_post_message, use_http_artifact, PAOS"
+  "use_http_artifact, use_http_uri, PAOS; Entity.unravel for SOAP (the reader is covered by C11 / soap_roundtrip)"
  ],
  "id": "C14"
 }
